@@ -176,6 +176,9 @@ def check(ck: Checker) -> None:
         # (when the per-directory body lives in a helper that was not inlined there is nothing to anchor on here)
         ck.floor("C04.allfiles", n_claim, 1, "pool-claiming statements in the per-directory loop")
     check_missing_readonly(ck, m, "C04.guard")
+    from . import round7 as _r7
+
+    _r7.collect_every_entry(ck, "C04.push")
     from . import round4 as _r4
 
     _r4.hashinfo_identity(ck, "C04.guard")
